@@ -58,6 +58,9 @@ type World struct {
 	constMaps            map[*ssa.Global]*constMapInfo
 	cursorStores         map[string][2]int
 	posSum               []resolvedArg
+	parenF               *ssa.Function
+	parenExprIdx         int
+	parenDone            bool
 	lexProg              []*lbOb
 	lexProgDone          bool
 	posSumDone           bool
